@@ -116,6 +116,11 @@ impl<I: Interner> RenderAsRust<I> for AdtDatum<I> {
             }
         );
 
+        // size and alignment
+        if s.db().adt_size_align(self.id).one_zst() {
+            writeln!(f, "#[one_zst]")?;
+        }
+
         // repr
         let repr = s.db().adt_repr(self.id);
 
